@@ -1,9 +1,73 @@
-(* C26 — property theorems only.  Each is closed by `exact <lemma>` and followed by Print Assumptions. *)
+(* C26 — property theorems only.  Each is closed by `exact <lemma>` and followed by Print Assumptions.
+
+   Reading guide.  [cache_run ord g c0 ins] runs the model of ONE watcher cache over ANY list [ins] of
+   (timeout-elapsed?, datastore outcome) pairs; it is [None] only when an outcome does not answer the call the
+   cache is blocked in (a List outcome while it waits for a watch event, ...) or when the code panics by design
+   (a List that returns items with a zero revision).  [ord] is the Go map iteration order and is arbitrary
+   ([ord_ok]: it enumerates exactly the entries of the map); [g] holds SendDeletesOnConnFail and an arbitrary pure
+   converter.  [upds_of rs] are the KV updates the cache sent, in order; [cfold [] us] is the consumer's view after
+   applying them to nothing; [spec_run] is the specification of Spec.v (what the datastore told last);
+   [rvl k V] is the revision held for key k.  Views are compared by revision: the code swallows an event whose
+   revision equals the cached one, so contents agree exactly when a revision identifies the content of a key. *)
 From Coq Require Import List NArith Arith Bool.
-From Verif.C26 Require Import Model Spec Proofs.
+From Verif.C26 Require Import Model Spec Proofs Steps.
 Import ListNotations.
 
-(* The aggregated status is InSync exactly when every cache's last reported status is InSync. *)
+(* Convergence: after ANY sequence of list results, list errors, watch-creation outcomes, watch events, watch errors,
+   expired revisions, bookmarks and timeouts, the emitted update stream applied in order yields exactly the
+   (converted) contents the datastore reported last: the last successful list edited by the watch events since
+   (emptied on a lost connection when SendDeletesOnConnFail is set). *)
+Theorem c26_converges : forall ord g ins c rs,
+  ord_ok ord -> cache_run ord g (fst cache_init) ins = Some (c, rs) ->
+  forall k, rvl k (cfold [] (upds_of rs)) = rvl k (sv (spec_run g sstate0 ins)).
+Proof. exact cache_converges. Qed.
+Print Assumptions c26_converges.
+
+(* Resources that vanished during a resync are deleted: when a List completes, every key the consumer holds that is
+   absent from the (converted) listed items gets a deletion in that very step. *)
+Theorem c26_vanished_deleted : forall ord g ins c rs0 t items lrev c' rs,
+  ord_ok ord -> cache_run ord g (fst cache_init) ins = Some (c, rs0) ->
+  cache_step ord g c t (RListOk items lrev) = Some (c', rs) ->
+  forall k, rvl k (cfold [] (upds_of rs0)) <> None -> rvl k (slist (cv g) items) = None -> In (UDel k) (upds_of rs).
+Proof. exact cache_vanished_deleted. Qed.
+Print Assumptions c26_vanished_deleted.
+
+(* No update while waiting for the datastore — what the code guarantees precisely: scanning everything a cache ever
+   puts on the results channel, no KV update follows a WaitForDatastore status without another status in between
+   (the scan [nowait] never fails, and it ends in the cache's own status field).  In particular the deletions sent on
+   a lost connection are preceded by a transition to ResyncInProgress. *)
+Theorem c26_no_update_while_waiting : forall ord g ins c rs,
+  ord_ok ord -> cache_run ord g (fst cache_init) ins = Some (c, rs) -> nowait Wait rs = Some (status c).
+Proof. exact cache_no_update_while_waiting. Qed.
+Print Assumptions c26_no_update_while_waiting.
+
+(* A cache reports InSync only if a full List (or the server's "no such resource type" answer, which the code treats
+   as an empty, complete list) has completed since its connection was last declared lost. *)
+Theorem c26_insync_after_listed : forall ord g ins c rs,
+  ord_ok ord -> cache_run ord g (fst cache_init) ins = Some (c, rs) ->
+  status c = InSync -> slisted (spec_run g sstate0 ins) = true.
+Proof. exact cache_insync_listed. Qed.
+Print Assumptions c26_insync_after_listed.
+
+(* The syncer: after any script the status it has reported is the aggregate of the caches' last statuses ... *)
+Theorem c26_syncer_status_is_aggregate : forall ord gs steps s s' os,
+  wstatus s = agg (cstat s) -> syncer_run ord gs s steps = Some (s', os) -> wstatus s' = agg (cstat s').
+Proof. exact syncer_status_is_agg. Qed.
+Print Assumptions c26_syncer_status_is_aggregate.
+
+(* ... and the aggregate is InSync exactly when EVERY cache's last reported status is InSync. *)
 Theorem c26_agg_insync_iff_all : forall cs, agg cs = InSync <-> Forall (fun s => s = InSync) cs.
 Proof. exact agg_insync. Qed.
 Print Assumptions c26_agg_insync_iff_all.
+
+(* Non-vacuity: a run with a list, an unobserved deletion found by the resync, a lost connection and recovery. *)
+Example c26_example :
+  let g := mkCfgC true None in
+  let ins := [(false, RListOk [mkItem 1 11 5; mkItem 2 12 6] 12); (false, RWatchOk);
+              (false, REvent (EvMod (mkItem 1 13 7))); (false, REvent EvErrExpired);
+              (false, RListOk [mkItem 1 13 7] 14); (false, RWatchErr WConnRefused); (true, RWatchErr WConnRefused);
+              (false, RListErr LOther); (false, RListOk [mkItem 3 20 1] 20)] in
+  option_map (fun cr => upds_of (snd cr)) (cache_run id_ord g (fst cache_init) ins)
+  = Some [UNew 1 11 5; UNew 2 12 6; UMod 1 13 7; UDel 2; UDel 1; UNew 3 20 1]
+  /\ ord_ok id_ord.
+Proof. split; [vm_compute; reflexivity|intros m x; reflexivity]. Qed.
